@@ -834,6 +834,12 @@ fire('c01-hasattr-add-check', 'C01',
 silent('c01-hasattr-pop-check', ['C01', 'C02'],
        [(P, "        if isinstance(check1, _checks.AndCheck):\n", "        if hasattr(check1, 'add_check') and isinstance(check1, _checks.AndCheck):\n")])
 
+fire('c19-no-system-mirror', 'C19',
+     [(SH, "        access_data['system'] = access_data['system_scope']\n", "")], 'C19.CREDS')
+fire('c19-is-admin-dropped', 'C19',
+     [(SH, "    access_data['is_admin'] = is_admin\n", "    access_data['is_admin'] = False\n")], 'C19.CREDS')
+fire('c19-eval-guard-narrowed', 'C19',
+     [(SH, "    except Exception as e:\n        print(e)", "    except (KeyError, ValueError) as e:\n        print(e)")], 'C19.EVERY')
 # ------------------------------------------------------------------ C20
 fire('c20-clear-then-update', 'C20',
      [(POL, "        if overwrite:\n            self.rules = Rules(rules, self.default_rule)\n        else:",
